@@ -82,4 +82,8 @@ def _install_module(name, module):
         parent_module.__path__ = []
         _install_module(parent_name, parent_module)
 
-    setattr(parent_module, child_name, module)
+    # A grammar can be named like a rule of the grammar that its name starts
+    # with. Don't replace what that module itself defines.
+    existing = getattr(parent_module, child_name, None)
+    if existing is None or isinstance(existing, types.ModuleType):
+        setattr(parent_module, child_name, module)
